@@ -494,7 +494,7 @@ fn drive_bounded<S: SnapshotBounded>(
             B_EXTEND => {
                 let k = op.a.max(0) as usize;
                 let vs: Vec<u64> = (0..k).map(|_| tags.next()).collect();
-                rb.extend(vs.iter().copied());
+                rb.extend(loose(vs.iter().copied(), vs.len(), k + model.len()));
                 for v in vs {
                     if model.len() == cap {
                         obs.fault(F_EVICT);
@@ -669,6 +669,79 @@ impl Scenario for BoundedScenario {
 // ---------------------------------------------------------------------------------------------
 // Fixed
 // ---------------------------------------------------------------------------------------------
+
+/// An iterator whose `size_hint` is legal but loose: the lower bound under-reports and the upper bound
+/// over-reports (as `filter`, `take_while` or `flat_map` do).  `Extend` and the constructors must not
+/// trust either bound beyond what it promises.
+struct LooseHint<I> {
+    inner: I,
+    left: usize,
+    mode: usize,
+}
+impl<I: Iterator> Iterator for LooseHint<I> {
+    type Item = I::Item;
+    fn next(&mut self) -> Option<I::Item> {
+        let v = self.inner.next();
+        if v.is_some() {
+            self.left -= 1;
+        }
+        v
+    }
+    fn size_hint(&self) -> (usize, Option<usize>) {
+        match self.mode % 4 {
+            0 => (self.left, Some(self.left)),
+            1 => (0, None),
+            2 => (self.left / 2, Some(self.left * 3 + 7)),
+            _ => (0, Some(self.left + 100)),
+        }
+    }
+}
+fn loose<I: Iterator>(inner: I, left: usize, mode: usize) -> LooseHint<I> {
+    LooseHint { inner, left, mode }
+}
+
+/// Ownership side of `Fixed::push` (the buffer is not restricted to `Copy` elements): the element that
+/// `push` hands back must be the live oldest element — not a copy of something already destroyed — and
+/// every element ever stored is destroyed exactly once.
+fn fixed_ownership(n: usize, first: usize, pushes: usize, obs: &mut Observer) -> Result<(), Violation> {
+    use std::cell::Cell;
+    // (the tracked element owns nothing: a library that destroys an element twice must show up as a count,
+    // not as heap corruption inside the harness)
+    thread_local! {
+        static DROPS: [Cell<u32>; 256] = const { [const { Cell::new(0) }; 256] };
+    }
+    struct Tracked {
+        id: usize,
+    }
+    impl Drop for Tracked {
+        fn drop(&mut self) {
+            DROPS.with(|d| d[self.id].set(d[self.id].get() + 1));
+        }
+    }
+    let total = (n + pushes).min(256);
+    let pushes = total - n;
+    DROPS.with(|d| d.iter().for_each(|c| c.set(0)));
+    let data: Vec<Tracked> = (0..n).map(|id| Tracked { id }).collect();
+    // oldest-first order of the initial content when the ring starts at `first`
+    let mut order: std::collections::VecDeque<usize> = (0..n).map(|i| (first + i) % n).collect();
+    let mut rb = Fixed::from_raw_parts(first % n, data);
+    for k in 0..pushes {
+        let id = n + k;
+        let back = rb.push(Tracked { id });
+        let want = order.pop_front().unwrap();
+        order.push_back(id);
+        let (back_id, already) = (back.id, DROPS.with(|d| d[back.id.min(255)].get()));
+        drop(back);
+        check_eq!(obs, back_id, want, "fixed.push-ownership", "element returned by push {} of a non-Copy ring of {}", k, n);
+        check_eq!(obs, already, 0, "fixed.push-ownership", "the element handed back by push {} (id {}) had already been destroyed this many times", k, back_id);
+    }
+    drop(rb);
+    let counts: Vec<u32> = DROPS.with(|d| (0..total).map(|i| d[i].get()).collect());
+    if let Some(bad) = (0..total).find(|&i| counts[i] != 1) {
+        check!(obs, false, "fixed.push-ownership", "element {} of a non-Copy ring of {} was destroyed {} times after {} pushes and dropping the ring", bad, n, counts[bad], pushes);
+    }
+    Ok(())
+}
 
 pub struct FixedScenario;
 
@@ -935,7 +1008,7 @@ fn drive_fixed<S: SnapshotBounded>(
             }
             X_EXTEND => {
                 let vs: Vec<u64> = (0..arg).map(|_| tags.next()).collect();
-                rb.extend(vs.iter().copied());
+                rb.extend(loose(vs.iter().copied(), vs.len(), arg + since_disturb));
                 for v in vs {
                     model.remove(0);
                     model.push(v);
@@ -1054,6 +1127,9 @@ impl Scenario for FixedScenario {
             (r.next_u64() | r.next_u64()) as i64 & ((1 << X_NOPS) - 1)
         }) as u64;
         let data: Vec<u64> = (0..n as u64).map(|i| 1000 + i).collect();
+        if n <= 40 && src.cfg("ownership", 0, 1, |r| r.chance(1, 8) as i64) == 1 {
+            fixed_ownership(n, first, (steps % 97) + 1, obs)?;
+        }
         let ctor = src.cfg("ctor", 0, 2, |r| if r.chance(3, 4) { 0 } else { r.range(1, 2) });
         obs.note(n as u64 * 1000 + storage as u64 * 100 + first as u64 + ctor as u64 * 7919);
         if ctor != 0 {
